@@ -72,6 +72,8 @@ pub struct BitmapMmapRegion {
 
 impl Bitmap for BitmapMmapRegion {
     fn mark_dirty(&self, offset: usize, len: usize) {
+        #[cfg(feature = "verif-hooks")]
+        vhost::verif::before_read(&self.inner, "bitmap.read");
         let inner = self.inner.read().unwrap();
         if let Some(bitmap) = inner.as_ref() {
             if let Some(absolute_offset) = self.base_address.checked_add(offset) {
@@ -81,6 +83,8 @@ impl Bitmap for BitmapMmapRegion {
     }
 
     fn dirty_at(&self, offset: usize) -> bool {
+        #[cfg(feature = "verif-hooks")]
+        vhost::verif::before_read(&self.inner, "bitmap.read");
         let inner = self.inner.read().unwrap();
         inner
             .as_ref()
@@ -99,6 +103,8 @@ impl BitmapReplace for BitmapMmapRegion {
     type InnerBitmap = AtomicBitmapMmap;
 
     fn replace(&self, bitmap: AtomicBitmapMmap) {
+        #[cfg(feature = "verif-hooks")]
+        vhost::verif::before_write(&self.inner, "bitmap.write");
         let mut inner = self.inner.write().unwrap();
         inner.replace(bitmap);
     }
@@ -186,6 +192,8 @@ impl AtomicBitmapMmap {
 
             // get the absolute page number
             let page = self.pages_before_region + page;
+            #[cfg(feature = "verif-hooks")]
+            vhost::verif::point("bitmap.fetch_or");
             self.logmem[page_word(page)].fetch_or(1 << page_bit(page), Ordering::Relaxed);
         }
     }
